@@ -6,7 +6,7 @@ from check import *
 SRCS = ['Numerics.cpp', 'Special_Functions.cpp', 'Utilities.cpp']
 KEEP = ['verif_c01_build', 'verif_c01_layout', 'verif_c01_eval', 'verif_c01_call', 'verif_c01_deriv', 'verif_c01_locate', 'verif_c08_integrate', 'verif_c08_locmin', 'verif_c08_locmax',
         'verif_c08_globmin', 'verif_c08_globmax', 'verif_c08_setpref', 'verif_c08_multiply', 'verif_c09_copy', 'verif_c01_build2d', 'verif_c01_eval2d', 'verif_c08_globmin2d',
-        'verif_c08_globmax2d', 'verif_c08_setpref2d', 'verif_c08_multiply2d', 'verif_c01_setcache2d', 'verif_c09_new', 'verif_c10_ctor', 'verif_c10_ctor2d']
+        'verif_c08_globmax2d', 'verif_c08_setpref2d', 'verif_c08_multiply2d', 'verif_c01_setcache2d', 'verif_c09_new', 'verif_c10_ctor', 'verif_c10_ctor2d', 'verif_c10_ctor_units']
 NATIVE_SRCS = ['Numerics.cpp', 'Special_Functions.cpp', 'Utilities.cpp', 'Linear_Algebra.cpp', 'Integration.cpp', 'Statistics.cpp', 'Natural_Units.cpp']
 
 GMOD = {}
